@@ -1,5 +1,6 @@
 import VelaVerif.Lemmas.Constraints
 import VelaVerif.Lemmas.ConstraintsExamples
+import VelaVerif.Lemmas.UnchangedOnCpu
 import VelaVerif.Lemmas.Placement
 /-!
 # C16 — operators within the documented constraints are accelerated, others stay on the CPU
